@@ -29,12 +29,14 @@ pub fn tr_host(h: &mut Host, s: &str) {
 }
 
 fn feature_set() -> &'static str {
-    match (cfg!(feature = "spawn"), cfg!(feature = "itw"), cfg!(feature = "fstream")) {
-        (false, false, false) => "async",
-        (true, false, false) => "async+spawn",
-        (false, true, false) => "async+itw",
-        (true, true, true) => "all",
-        (true, true, false) => "async+spawn+itw",
+    // "(release)": built without debug assertions
+    match (cfg!(feature = "spawn"), cfg!(feature = "itw"), cfg!(feature = "fstream"), cfg!(debug_assertions)) {
+        (false, false, false, true) => "async",
+        (true, false, false, true) => "async+spawn",
+        (false, true, false, true) => "async+itw",
+        (true, true, true, true) => "all",
+        (false, false, false, false) => "async (release)",
+        (true, true, true, false) => "all (release)",
         _ => "other",
     }
 }
